@@ -9,3 +9,10 @@ PBT_PROPERTY(btree_model) { verif::bt::run_property(src, true); }
 // beyond half / beyond the 8-, 15- and 16-bit thresholds, then a cost-bounded history; same oracle. Configurations:
 // C01_btree_cfgs_*.cpp (quick) and C01_btree_cfgst_*.cpp (thorough), see run_scale_property in C01_btree_history.cpp.
 PBT_PROPERTY(btree_scale) { verif::bt::run_scale_property(src); }
+
+// Alias / destructive-move classes: key and data types std::string, verif::Tracked (moved-from = poison) and mixed, comparators
+// that own their state, and the ALIASING call patterns the std containers allow: insert(*it), insert(hint, *it), insert2(it_a->first,
+// it_b->second), erase(*it) / erase(it->first) / erase_one(...) with the key of an element that is erased, lookups and bounds with a
+// key reference into the container, c = c, c.swap(c) -- interleaved with the complete operation set of btree_model; same oracle.
+// Configurations: C01_btree_cfga_*.cpp (thorough adds C01_btree_cfgat_*.cpp), see run_alias_property in C01_btree_history.cpp.
+PBT_PROPERTY(btree_alias) { verif::bt::run_alias_property(src, true); }
